@@ -119,6 +119,8 @@ func Load(dir, tags string) (*World, error) {
 				if fd, ok := d.(*ast.FuncDecl); ok {
 					if obj, ok := p.TypesInfo.Defs[fd.Name].(*types.Func); ok {
 						w.decls[obj] = fd
+						gDecls[obj] = fd
+						gInfos[obj] = p.TypesInfo
 						w.declPkg[obj] = p
 					}
 				}
@@ -192,6 +194,13 @@ type FuncRef struct {
 	Pkg  *packages.Package
 	Name string // display name pkg.(*T).M
 }
+
+// gDecls / gInfos: declarations and type info of every module function of the loaded world (used by the
+// expression evaluators to inline small predicate functions).
+var (
+	gDecls = map[*types.Func]*ast.FuncDecl{}
+	gInfos = map[*types.Func]*types.Info{}
+)
 
 // fn resolves "Name" (package function) or "(*T).M" / "T.M" (method) in a module package.
 func (w *World) fn(rel, name string) *FuncRef {
